@@ -109,27 +109,35 @@ fn lossless(text: &str, tree: &LuaSyntaxTree) -> Option<Value> {
 }
 
 /// Watchdog for hangs (C02): the working thread publishes the index of the case it is parsing; if one case
-/// takes longer than HANG_SECS the watchdog reports it as {"fail":"hang"} and ends the process (the remaining
-/// cases stay unjudged, which the driver notices from the missing summary).
+/// consumes more than HANG_CPU_SECS of CPU time of the working (main) thread the watchdog reports it as
+/// {"fail":"hang"} and ends the process (the remaining cases stay unjudged, which the driver notices from the
+/// missing summary). CPU time, not wall time, so that a loaded machine does not look like a hang.
 static CURRENT_CASE: std::sync::atomic::AtomicI64 = std::sync::atomic::AtomicI64::new(-1);
-const HANG_SECS: u64 = 20;
+const HANG_CPU_SECS: u64 = 3;
+
+fn main_thread_cpu_ns() -> u64 {
+    std::fs::read_to_string("/proc/self/schedstat")
+        .ok()
+        .and_then(|s| s.split_whitespace().next().and_then(|x| x.parse().ok()))
+        .unwrap_or(0)
+}
 
 fn start_watchdog(cases: &[Value]) {
     use std::sync::atomic::Ordering;
     let cases: Vec<Value> = cases.to_vec();
     std::thread::spawn(move || {
         let mut last = -2i64;
-        let mut since = std::time::Instant::now();
+        let mut since = main_thread_cpu_ns();
         loop {
-            std::thread::sleep(std::time::Duration::from_millis(250));
+            std::thread::sleep(std::time::Duration::from_millis(200));
             let cur = CURRENT_CASE.load(Ordering::SeqCst);
             if cur != last {
                 last = cur;
-                since = std::time::Instant::now();
-            } else if cur >= 0 && since.elapsed().as_secs() >= HANG_SECS {
+                since = main_thread_cpu_ns();
+            } else if cur >= 0 && main_thread_cpu_ns().saturating_sub(since) >= HANG_CPU_SECS * 1_000_000_000 {
                 let case = &cases[cur as usize];
                 let text = case.get("l").and_then(|l| l.as_array()).map(|l| concretise(l));
-                emit(&json!({"fail":"hang","case_index":cur,"l":case.get("l"),"text":text,"seconds":HANG_SECS}));
+                emit(&json!({"fail":"hang","case_index":cur,"l":case.get("l"),"text":text,"seconds":HANG_CPU_SECS}));
                 std::process::exit(0);
             }
         }
